@@ -20,7 +20,7 @@ from vlib import Run, zlit, qlit, fhex, coq_list, coq_opt, coq_bool, coq_string
 
 warnings.simplefilter("ignore")
 
-IMPORTS = "From Coq Require Import QArith PrimFloat.\nFrom V Require Import Generated.CalTrackTables Model.CalTrack Model.CalTrackRun."
+IMPORTS = "From Coq Require Import QArith PrimFloat.\nFrom V Require Import Generated.CalTrackTables Model.CalTrack Model.CalTrackRun Model.CalTrackFit Model.CalTrackFitRun."
 ZONES = ["UTC", "US/Pacific", "Europe/Berlin", "Australia/Sydney", "Asia/Kolkata", "America/Sao_Paulo"]
 ZONES_THOROUGH = ZONES + ["America/St_Johns", "Pacific/Auckland", "Africa/Cairo", "Asia/Tokyo", "America/Havana", "Pacific/Chatham"]
 YEARS = [2023, 2024]          # a non-leap and a leap year
@@ -667,11 +667,323 @@ def stream_routing_partial(run, zones, n, only=None):
     return "routing_partial", terms, meta, "check_prediction_on"
 
 
+
+# ------------------------------------------------------------------ stream 8: _fit_temperature_bins (which endpoints are kept)
+
+def np_bin_counts(temps, e):
+    """counts per bin (-inf, e1], (e1, e2], ..., (ek, +inf) of the non-null temperatures, with numpy only"""
+    t = np.asarray([x for x in temps if x == x], dtype=float)
+    edges = [-np.inf] + [float(x) for x in e] + [np.inf]
+    return [int(((t > a) & (t <= b)).sum()) for a, b in zip(edges, edges[1:])]
+
+
+def fit_bins_oracle(temps, cands, minc, out):
+    """statement on one call: kept endpoints are a sub-list of the sorted distinct candidates, every kept bin holds the
+    minimum count unless a single bin is left, and candidates whose bins all hold the minimum are all kept.
+    Returns (kind, message) or None."""
+    norm = sorted(set(float(c) for c in cands))
+    out = [float(x) for x in out]
+    it = iter(norm)
+    if not all(any(x == y for y in it) for x in out):
+        return "not a sub-list of the candidates", "kept endpoints %s are not a sub-list of the candidates %s" % (out, norm)
+    if norm and all(c >= minc for c in np_bin_counts(temps, norm)) and out != norm:
+        return "endpoint dropped without need", "every bin of the candidates %s holds the minimum count %d (%s) but only %s were kept" % (
+            norm, minc, np_bin_counts(temps, norm), out)
+    if out:
+        counts = np_bin_counts(temps, out)
+        low = [i for i, c in enumerate(counts) if c < minc]
+        if low:
+            return "kept bin below the minimum count", "bin %d of the kept endpoints %s holds %d temperatures, the minimum is %d" % (
+                low[0], out, counts[low[0]], minc)
+    return None
+
+
+def sample_temperatures(rng, n, cands):
+    centre = rng.uniform(20, 100)
+    sd = rng.choice([3, 8, 15, 30])
+    pool = [float(c) for c in cands]
+    out = []
+    for _ in range(n):
+        u = rng.random()
+        if u < 0.08 and pool:
+            out.append(rng.choice(pool))                       # exactly on a candidate (belongs to the bin on its left)
+        elif u < 0.11:
+            out.append(float("nan"))
+        else:
+            out.append(round(rng.gauss(centre, sd) * 4) / 4.0)
+    return out
+
+
+def stream_fit_bins(run, n, only=None):
+    import random
+    from opendsm.eemeter.common.features import _fit_temperature_bins, fit_temperature_bins
+    default = list(inspect.signature(fit_temperature_bins).parameters["default_bins"].default)
+    terms, meta = [], []
+    seeds = [only["seed"]] if only else [run.rng.randrange(10**9) for _ in range(n)]
+    for seed in seeds:
+        rng = random.Random(seed)
+        u = rng.random()
+        if u < 0.6:
+            cands = list(default)
+        elif u < 0.85:
+            cands = sorted(rng.sample(range(0, 120, 5), rng.choice([1, 2, 3, 5, 8])))
+        else:                                                  # unsorted / repeated candidates: sorted(set(...)) is part of the code
+            cands = [rng.choice(range(20, 100, 10)) for _ in range(rng.choice([2, 4, 6]))]
+        temps = sample_temperatures(rng, rng.choice([0, 3, 30, 120, 400, 1500]), cands)
+        counts = np_bin_counts(temps, sorted(set(cands)))
+        v = rng.random()
+        if v < 0.45 and counts:                                # a bin sits exactly at / one below the minimum
+            minc = max(0, rng.choice(counts) + rng.choice([0, 0, 1]))
+        else:
+            minc = rng.choice([0, 1, 5, 20, 20, 50, 200])
+        try:
+            out = _fit_temperature_bins(pd.Series(temps, dtype=float), list(cands), minc)
+            out = [float(x) for x in out]
+        except Exception as e:  # noqa
+            run.violation({"stream": "fit_bins", "broken": "raises", "raised": type(e).__name__},
+                          "C18 _fit_temperature_bins raised %s: %s" % (type(e).__name__, str(e)[:160]),
+                          case={"stream": "fit_bins", "seed": seed}, generator="c18.fit_bins")
+            continue
+        at_edge = minc in counts or (minc - 1) in counts
+        run.count(("fit_bins", seed), len(temps) > 0)
+        run.dist("fit_bins_kept", "%d of %d" % (len(out), len(set(cands))))
+        run.dist("fit_bins_min_count_on_a_bin_count", at_edge)
+        res = fit_bins_oracle(temps, cands, minc, out)
+        if res:
+            run.violation({"stream": "fit_bins", "broken": res[0]}, "C18 _fit_temperature_bins(min count %d): %s" % (minc, res[1]),
+                          case={"stream": "fit_bins", "seed": seed}, observation={"kept": out, "candidates": cands, "min_count": minc,
+                                                                                   "counts_of_candidates": counts},
+                          expected="a sub-list of the candidates whose bins each hold the minimum count (or no endpoint)",
+                          generator="c18.fit_bins")
+        q = lambda x: qlit(Fraction(float(x)))  # noqa
+        terms.append("(%s, %s, %s, %s)" % (coq_list([q(t) for t in temps if t == t]), coq_list([q(c) for c in cands]), zlit(minc),
+                                           coq_list([q(x) for x in out])))
+        meta.append({"stream": "fit_bins", "seed": seed, "candidates": cands, "min_count": minc, "n_temperatures": len(temps), "kept": out})
+    if meta:
+        run.sample(meta[min(len(meta) - 1, 2)])
+    return "fit_bins", terms, meta, "check_fit_bins"
+
+
+def stream_fit_api(run, n, only=None):
+    """fit_temperature_bins(data, segmentation, occupancy_lookup) with its defaults: per segment, the hours of positive weight
+    split by the occupancy of their hour of week"""
+    import random
+    from opendsm.eemeter.common.features import fit_temperature_bins
+    from opendsm.eemeter.models.hourly_caltrack.segmentation import segment_time_series
+    sig = inspect.signature(fit_temperature_bins).parameters
+    default, minc = list(sig["default_bins"].default), sig["min_temperature_count"].default
+    terms, meta = [], []
+    seeds = [only["seed"]] if only else [run.rng.randrange(10**9) for _ in range(n)]
+    for seed in seeds:
+        rng = random.Random(seed)
+        zone = rng.choice(ZONES)
+        seg_type = rng.choice(["three_month_weighted", "three_month_weighted", "one_month", "single"])
+        start = pd.Timestamp("2023-01-01", tz=zone) + pd.Timedelta(days=rng.randrange(0, 600))
+        idx = pd.date_range(start, periods=24 * rng.choice([10, 25, 40, 70]), freq="h")
+        lf = local_fields(idx, zone)
+        how = 24 * lf[:, 1] + lf[:, 2]
+        temps = sample_temperatures(rng, len(idx), default)
+        p_occ = rng.choice([0.2, 0.5, 0.8])
+        try:
+            segmentation = segment_time_series(idx, seg_type)
+            names = [str(c) for c in segmentation.columns]
+            occ = {nm: [rng.random() < p_occ for _ in range(168)] for nm in names}
+            lookup = pd.DataFrame(occ, index=pd.CategoricalIndex(range(168)))
+            data = pd.DataFrame({"temperature_mean": temps}, index=idx)
+            bo, bu = fit_temperature_bins(data, segmentation=segmentation, occupancy_lookup=lookup)
+        except Exception as e:  # noqa
+            run.violation({"stream": "fit_api", "broken": "raises", "raised": type(e).__name__},
+                          "C18 fit_temperature_bins raised %s: %s" % (type(e).__name__, str(e)[:160]),
+                          case={"stream": "fit_api", "seed": seed}, generator="c18.fit_api")
+            continue
+        if [float(x) for x in bo.index] != [float(x) for x in default] or list(bo.columns) != names or list(bu.columns) != names:
+            run.violation({"stream": "fit_api", "broken": "shape"}, "C18 fit_temperature_bins: unexpected index / columns",
+                          case={"stream": "fit_api", "seed": seed}, generator="c18.fit_api")
+            continue
+        W = segmentation.to_numpy(dtype=float)
+        active = [k for k, nm in enumerate(names) if (W[:, k] > 0).any()]
+        chosen = rng.sample(active, min(len(active), 3))
+        obs = []
+        for k in chosen:
+            nm = names[k]
+            sel = W[:, k] > 0
+            for mode, frame, want in (("occupied", bo, True), ("unoccupied", bu, False)):
+                flags = [bool(x) for x in frame[nm].tolist()]
+                kept = [float(c) for c, f in zip(default, flags) if f]
+                tt = [temps[i] for i in np.nonzero(sel)[0] if occ[nm][int(how[i])] == want]
+                run.count(("fit_api", seed, nm, mode), len(tt) > 0)
+                res = fit_bins_oracle(tt, default, minc, kept)
+                if res:
+                    run.violation({"stream": "fit_api", "broken": res[0], "mode": mode},
+                                  "C18 fit_temperature_bins, segment %s (%s): %s" % (nm, mode, res[1]),
+                                  case={"stream": "fit_api", "seed": seed, "segment": nm, "mode": mode},
+                                  observation={"flags": flags, "counts_of_kept": np_bin_counts(tt, kept)}, generator="c18.fit_api")
+            obs.append("(%s, %s, %s)" % (coq_string(nm), coq_list([coq_bool(bool(x)) for x in bo[nm].tolist()]),
+                                         coq_list([coq_bool(bool(x)) for x in bu[nm].tolist()])))
+        for k, o in zip(chosen, obs):
+            nm = names[k]
+            rws = coq_list(["(%s, %s, %s)" % (zlit(int(lf[i, 0])), coq_bool(occ[nm][int(how[i])]), qlit(Fraction(temps[i])))
+                            for i in range(len(idx)) if temps[i] == temps[i]])
+            terms.append("(%s, %s, %s)" % (coq_string(seg_type), rws, coq_list([o])))
+            meta.append({"stream": "fit_api", "seed": seed, "zone": zone, "segment_type": seg_type, "segment": nm, "hours": len(idx)})
+    if meta:
+        run.sample(meta[0])
+    return "fit_api", terms, meta, "check_fit_api"
+
+
+# ------------------------------------------------------------------ stream 9: hour-of-week occupancy rule
+
+class _FakeWLS:
+    """stands in for statsmodels' formula API inside opendsm.eemeter.common.features while a residual table is fed to the
+    decision rule: wls(...).fit().resid is the prepared series (the regression itself stays an oracle)"""
+
+    def __init__(self, resid):
+        self._resid = resid
+
+    def wls(self, formula=None, data=None, weights=None, **kw):
+        return self
+
+    def fit(self, *a, **kw):
+        return self
+
+    @property
+    def resid(self):
+        return self._resid
+
+
+def occupancy_oracle(rows, thr, lookup):
+    """statement on one lookup: 168 booleans; occupied iff positive / all > threshold; no residual -> occupied (the cast)"""
+    if len(lookup) != 168:
+        return "not 168 hours", "the lookup has %d rows" % len(lookup)
+    n, p = [0] * 168, [0] * 168
+    for h, pos in rows:
+        n[h] += 1
+        p[h] += 1 if pos else 0
+    for h in range(168):
+        v = lookup[h]
+        if v is None or not isinstance(v, bool):
+            return "not a boolean", "hour of week %d has occupancy %r" % (h, v)
+        want = True if n[h] == 0 else Fraction(p[h], n[h]) > Fraction(thr)
+        if n[h] and 0 < abs(Fraction(p[h], n[h]) - Fraction(thr)) < Fraction(1, 2**50):
+            continue        # inside the rounding band of the binary64 division: left to the bit-exact correspondence
+        if v != want:
+            return ("no residuals but unoccupied" if n[h] == 0 else "flag differs from ratio > threshold",
+                    "hour of week %d: %d of %d residuals positive (ratio %s), threshold %r, occupied=%r"
+                    % (h, p[h], n[h], "-" if n[h] == 0 else "%.6f" % (p[h] / n[h]), thr, v))
+    return None
+
+
+def canon_lookup(series):
+    if [int(x) for x in series.index] != list(range(168)):
+        return None
+    out = []
+    for v in series.tolist():
+        out.append(None if (isinstance(v, float) and v != v) or v is None else (bool(v) if isinstance(v, (bool, np.bool_)) else v))
+    return out
+
+
+def stream_occupancy_rule(run, n, only=None):
+    import random
+    import opendsm.eemeter.common.features as F
+    thr_default = inspect.signature(F.estimate_hour_of_week_occupancy).parameters["threshold"].default
+    terms, meta = [], []
+    seeds = [only["seed"]] if only else [run.rng.randrange(10**9) for _ in range(n)]
+    weeks = 42
+    idx = pd.date_range("2023-01-02", periods=168 * weeks, freq="h", tz="UTC")      # a Monday: position mod 168 = hour of week
+    how_all = np.arange(len(idx)) % 168
+    for seed in seeds:
+        rng = random.Random(seed)
+        use_default = rng.random() < 0.6
+        thr = thr_default if use_default else rng.choice([0.5, 0.5, 0.25, 0.75, 0.625, 0.65, 1.0, 0.0, 0.7, 0.6])
+        no_data = rng.random() < 0.06
+        public = rng.random() < 0.3
+        # residual table: per hour of week n_h residuals of which p_h positive; ratios on and around the threshold
+        chosen, signs = [], []
+        for h in range(168):
+            nh = rng.choice([0, 0, 1, 2, 3, 4, 5, 10, 20, 20, 20, 40])
+            if nh == 0:
+                continue
+            u = rng.random()
+            fr = Fraction(thr).limit_denominator(40)
+            if u < 0.35:
+                ph = min(nh, max(0, int(fr * nh) + rng.choice([0, 0, 1])))       # floor(thr*n) and one above: the boundary
+            else:
+                ph = rng.randint(0, nh)
+            pos = rng.sample(range(weeks), nh)
+            for j, w in enumerate(pos):
+                chosen.append(w * 168 + h)
+                signs.append(j < ph)
+        order = sorted(range(len(chosen)), key=lambda k: chosen[k])
+        chosen = [chosen[k] for k in order]
+        signs = [signs[k] for k in order]
+        vals = [(rng.uniform(0.01, 3) if sgn else rng.choice([0.0, -rng.uniform(0.01, 3)])) for sgn in signs]   # 0 is not positive
+        resid = pd.Series(vals, index=idx[chosen], dtype=float)
+        present = sorted(set(int(x) for x in how_all[chosen])) or [0]
+        cats = present if rng.random() < 0.5 else list(range(168))        # hours of week unknown to the categorical / known but empty
+        hw = pd.Series(how_all, index=idx)
+        md = pd.DataFrame({"meter_value": 1.0, "cdd_65": 0.0, "hdd_50": 0.0,
+                           "hour_of_week": pd.Categorical(hw.where(hw.isin(cats)), categories=cats), "weight": 1.0}, index=idx)
+        if no_data:
+            md["meter_value"] = np.nan
+        saved = F.smf
+        try:
+            F.smf = _FakeWLS(resid)
+            if public:                      # the public function adds the weight column itself (segmentation=None: weight 1)
+                mdp = md.drop(columns=["weight"])
+                frame = (F.estimate_hour_of_week_occupancy(mdp) if use_default
+                         else F.estimate_hour_of_week_occupancy(mdp, threshold=thr))
+                series = frame["occupancy"] if list(frame.columns) == ["occupancy"] else None
+            else:
+                series = F._estimate_hour_of_week_occupancy(md, thr)
+        except Exception as e:  # noqa
+            F.smf = saved
+            run.violation({"stream": "occupancy_rule", "broken": "raises", "raised": type(e).__name__},
+                          "C18 _estimate_hour_of_week_occupancy raised %s: %s" % (type(e).__name__, str(e)[:160]),
+                          case={"stream": "occupancy_rule", "seed": seed}, generator="c18.occupancy_rule")
+            continue
+        finally:
+            F.smf = saved
+        lookup = canon_lookup(series) if series is not None else None
+        # rows whose hour of week is outside the categories have a NaN key and fall out of the groupby
+        rows = [(int(how_all[c]), bool(v > 0)) for c, v in zip(chosen, vals) if int(how_all[c]) in cats]
+        run.count(("occupancy_rule", seed), not no_data)
+        if lookup is None:
+            run.violation({"stream": "occupancy_rule", "broken": "not 168 hours"}, "C18 occupancy lookup is not indexed by 0..167",
+                          case={"stream": "occupancy_rule", "seed": seed}, generator="c18.occupancy_rule")
+            continue
+        if not no_data:
+            res = occupancy_oracle(rows, thr, lookup)
+            if res:
+                run.violation({"stream": "occupancy_rule", "broken": res[0]}, "C18 hour-of-week occupancy: %s" % res[1],
+                              case={"stream": "occupancy_rule", "seed": seed}, observation={"threshold": thr},
+                              expected="occupied iff the fraction of positive residuals exceeds the threshold", generator="c18.occupancy_rule")
+            for h in range(168):
+                nh = sum(1 for hh, _ in rows if hh == h)
+                if nh:
+                    ph = sum(1 for hh, s_ in rows if hh == h and s_)
+                    d = Fraction(ph, nh) - Fraction(thr)
+                    run.dist("occupancy_ratio_vs_threshold", "equal (13/20-like)" if abs(d) < Fraction(1, 10**9) else
+                             ("just above" if 0 < d <= Fraction(1, 10) else ("just below" if -Fraction(1, 10) <= d < 0 else "far")))
+                else:
+                    run.dist("occupancy_ratio_vs_threshold", "no residuals")
+        canon = [v if (v is None or isinstance(v, bool)) else None for v in lookup]
+        terms.append("(%s, %s, %s, %s)" % (coq_bool(no_data), "None" if use_default else "(Some %s)" % fhex(float(thr)),
+                                           coq_list(["(%s, %s)" % (zlit(h), coq_bool(sg)) for h, sg in rows]),
+                                           coq_list([coq_opt(v, coq_bool) for v in canon])))
+        meta.append({"stream": "occupancy_rule", "seed": seed, "threshold": thr, "default_threshold": use_default, "no_data": no_data,
+                     "public_function": public, "n_residuals": len(rows)})
+    if meta:
+        run.sample(meta[0])
+    return "occupancy_rule", terms, meta, "check_occupancy_rule"
+
+
 def stream_fit(run, seed):
     """one real fit through the wrapper; every fitted segment model is then shifted by its own offset 1000*2^k
     (added to all its hour-of-week coefficients): the shift seen in an hour's prediction names the model(s) it came from"""
     from opendsm.eemeter.models.hourly_caltrack import HourlyModel, HourlyBaselineData
-    terms, meta, wterms, wmeta, uterms, umeta = [], [], [], [], [], []
+    terms, meta, wterms, wmeta, uterms, umeta, oterms, ometa = [], [], [], [], [], [], [], []
+    import opendsm.eemeter.common.features as F_
+    occ_threshold = inspect.signature(F_.estimate_hour_of_week_occupancy).parameters["threshold"].default
     rs = np.random.default_rng(seed)
     zone = "US/Pacific"
     idx = year_index(zone, 2023)
@@ -756,6 +1068,26 @@ def stream_fit(run, seed):
             if len(cands) == 1:
                 uterms.append("(%s, %s, %s)" % (coq_list([coq_string(k) for k in mnames]), zlit(m), coq_opt(cands[0], coq_string)))
                 umeta.append({"stream": "fit_unc", "seed": seed, "month": m, "filed_segment": cands[0]})
+        # the occupancy lookup of the fit: the same regression call (an oracle) gives the residuals, the rule is the model's
+        import statsmodels.formula.api as smf_
+        pdm = hm.model_process_variables.preliminary_design_matrix
+        occ_lookup = hm.model_process_variables.occupancy_lookup
+        for name in [mnames[k] for k in sorted(rs.choice(len(mnames), size=min(2, len(mnames)), replace=False).tolist())]:
+            sd = pd.merge(pdm, seg[name].to_frame("weight"), left_index=True, right_index=True)
+            sd = sd[sd.weight > 0]
+            resid = smf_.wls(formula="meter_value ~ cdd_65 + hdd_50", data=sd, weights=sd.weight).fit().resid
+            mg = sd.merge(pd.DataFrame({"residuals": resid}), left_index=True, right_index=True)
+            orow = [(int(h), bool(r > 0)) for h, r in zip(mg["hour_of_week"].tolist(), mg["residuals"].tolist()) if h == h]
+            lookup = canon_lookup(occ_lookup[name])
+            run.count(("fit-occupancy", name), True, n=len(orow))
+            res = ("not 168 hours", "lookup not indexed by 0..167") if lookup is None else occupancy_oracle(orow, occ_threshold, lookup)
+            if res:
+                run.violation({"stream": "fit", "broken": "occupancy: " + res[0]}, "C18 fitted occupancy lookup of %s: %s" % (name, res[1]),
+                              case={"stream": "fit", "seed": seed, "segment": name}, generator="c18.fit")
+            if lookup is not None:
+                oterms.append("(false, None, %s, %s)" % (coq_list(["(%s, %s)" % (zlit(h), coq_bool(sg)) for h, sg in orow]),
+                                                         coq_list([coq_opt(v if isinstance(v, bool) else None, coq_bool) for v in lookup])))
+                ometa.append({"stream": "fit_occupancy", "seed": seed, "segment": name, "n_residuals": len(orow)})
         ridx = year_index(zone, 2024)
         rdoy, rhod = ridx.dayofyear.values, ridx.hour.values
         rtemp = pd.Series(55 + 25 * np.sin((rdoy - 100) / 365 * 2 * np.pi) + 10 * np.sin((rhod - 9) / 24 * 2 * np.pi), index=ridx)
@@ -782,43 +1114,51 @@ def stream_fit(run, seed):
     for t, mt in zip(terms, meta):
         uniq.setdefault(t, mt)
     return [("fit", list(uniq), list(uniq.values()), "check_prediction"), ("fit_weights", wterms, wmeta, "check_weights"),
-            ("fit_unc", uterms, umeta, "check_unc")]
+            ("fit_unc", uterms, umeta, "check_unc"), ("fit_occupancy", oterms, ometa, "check_occupancy_rule")]
 
 
 # ------------------------------------------------------------------ main
 
 PROP = "Properties/C18.v"
-PROOFS = ["Proofs/CalTrackProofs.v", "Proofs/CalTrackTableProofs.v"]
+PROOFS = ["Proofs/CalTrackProofs.v", "Proofs/CalTrackTableProofs.v", "Proofs/CalTrackFitProofs.v", "Proofs/CalTrackFitTableProofs.v"]
+TABLE_FREE = ["Proofs/CalTrackProofs.v", "Proofs/CalTrackFitProofs.v"]
 
 
 def table_free_theorems(run):
     """The build of the property failed (a table theorem no longer holds of the regenerated tables, or the translator
     refused the source). The theorems that do not look inside the tables -- those proved by a lemma of
-    Proofs/CalTrackProofs.v -- are re-checked on their own, so that the evidence says what this run did establish."""
+    Proofs/CalTrackProofs.v or Proofs/CalTrackFitProofs.v -- are re-checked on their own, so that the evidence says what
+    this run did establish."""
     src = open(vlib.COQ + "/" + PROP).read()
-    lemmas = set(re.findall(r"^\s*Lemma\s+(\w+)", open(vlib.COQ + "/" + PROOFS[0]).read(), re.M))
+    lemmas = set()
+    for f in TABLE_FREE:
+        lemmas |= set(re.findall(r"^\s*Lemma\s+(\w+)", open(vlib.COQ + "/" + f).read(), re.M))
     thms = re.findall(r"^\s*(?:Theorem|Example)\s+(\w+)(.*?)Qed\.", src, re.M | re.S)
     free = [n for n, body in thms if (re.search(r"Proof\.(?:\s*intros[^.]*\.)?\s*exact\s*\(?\s*(\w+)", body) or [None, None])[1] in lemmas]
+    targets = " ".join(f[:-2] + ".vo" for f in TABLE_FREE)
     with vlib.Lock(True):
-        for ext in (".vo", ".vos", ".vok", ".glob"):
-            try:
-                os.remove(vlib.COQ + "/" + PROOFS[0][:-2] + ext)
-            except OSError:
-                pass
-        rc, out = vlib.sh("timeout 600 make %s" % (PROOFS[0][:-2] + ".vo"), cwd=vlib.COQ, timeout=660)
+        for f in TABLE_FREE:
+            for ext in (".vo", ".vos", ".vok", ".glob"):
+                try:
+                    os.remove(vlib.COQ + "/" + f[:-2] + ext)
+                except OSError:
+                    pass
+        rc, out = vlib.sh("timeout 600 make %s" % targets, cwd=vlib.COQ, timeout=660)
     run.cov["obligations"] = max(run.cov["obligations"], len(thms))
     run.cov["theorems"] = [n for n, _ in thms]
     run.cov["discharged"] = len(free) if rc == 0 else 0
     run.cov["discharged_note"] = ("the property file did not build on this run; counted as discharged are the %d theorems proved by "
-                                  "lemmas of %s (bins, occupancy, hour of week), which was re-checked on its own%s"
-                                  % (len(free), PROOFS[0], "" if rc == 0 else " -- and failed too"))
+                                  "lemmas of %s (bins, occupancy, hour of week, endpoint selection, occupancy rule), which were "
+                                  "re-checked on their own%s" % (len(free), " and ".join(TABLE_FREE), "" if rc == 0 else " -- and failed too"))
     if not run.cov.get("checker_cmd"):
-        run.cov["checker_cmd"] = "cd /verif/coq && make %s (translator failed: the table theorems were not re-checked)" % (PROOFS[0][:-2] + ".vo")
+        run.cov["checker_cmd"] = "cd /verif/coq && make %s (translator failed: the table theorems were not re-checked)" % targets
     run.log("property file did not build; table-free theorems re-checked on their own: %d/%d" % (run.cov["discharged"], run.cov["obligations"]))
 
 CONSTRUCTORS = {
-    "check_weights": "CWeights", "check_bins_float": "CBinsF", "check_bins_q": "CBinsQ", "check_how": "CHow",
-    "check_occupancy": "COccupancy", "check_prediction": "CPrediction", "check_prediction_on": "CPredictionOn", "check_unc": "CUnc",
+    "check_weights": "Old (CWeights %s)", "check_bins_float": "Old (CBinsF %s)", "check_bins_q": "Old (CBinsQ %s)",
+    "check_how": "Old (CHow %s)", "check_occupancy": "Old (COccupancy %s)", "check_prediction": "Old (CPrediction %s)",
+    "check_prediction_on": "Old (CPredictionOn %s)", "check_unc": "Old (CUnc %s)",
+    "check_fit_bins": "CFitBins %s", "check_fit_api": "CFitApi %s", "check_occupancy_rule": "COccRule %s",
 }
 
 
@@ -826,13 +1166,13 @@ def compare_all(run, results):
     """every stream's cases in one batch (one wait for coq/.lock, one round of coqc processes): each case is wrapped in the
     constructor of its stream (Model/CalTrackRun.v c18case, check_any); the constructor also gives an empty list its type.
     Cases are dealt round-robin over the shards so that the long ones (bins, occupancy) are spread evenly."""
-    items = [(stream, "(%s %s)" % (CONSTRUCTORS[fn], t), mt) for stream, terms, meta, fn in results for t, mt in zip(terms, meta)]
+    items = [(stream, "(%s)" % (CONSTRUCTORS[fn] % t), mt) for stream, terms, meta, fn in results for t, mt in zip(terms, meta)]
     if not items:
         return
     shard = max(16, -(-len(items) // 48))
     nsh = -(-len(items) // shard)
     items = [it for k in range(nsh) for it in items[k::nsh]]
-    bad = run.coq_cases("all", IMPORTS, "", [t for _, t, _ in items], "check_any", shard=shard, case_type="c18case")
+    bad = run.coq_cases("all", IMPORTS, "", [t for _, t, _ in items], "check_any2", shard=shard, case_type="c18case2")
     per = run.cov["streams"]
     for stream, _, _ in items:
         per.setdefault(stream, {"cases": 0, "disagreements": 0})["cases"] += 1
@@ -929,7 +1269,7 @@ def main():
             only = only["first"][0]["case"]
     zones = ZONES if run.quick() else ZONES_THOROUGH
     st = (only or {}).get("stream")
-    st = {"fit_weights": "fit", "fit_unc": "fit", "bins_float": "bins", "bins_q": "bins", "tables": "weights"}.get(st, st)
+    st = {"fit_weights": "fit", "fit_unc": "fit", "fit_occupancy": "fit", "bins_float": "bins", "bins_q": "bins", "tables": "weights"}.get(st, st)
     results = []
     if st in (None, "weights"):
         results.append(stream_weights(run, zones, only))
@@ -949,6 +1289,15 @@ def main():
     if st in (None, "routing_partial"):
         results.append(stream_routing_partial(run, zones, run.n(40, 1500), only))
         run.log("routing_partial done")
+    if st in (None, "fit_bins"):
+        results.append(stream_fit_bins(run, run.n(60, 3000), only))
+        run.log("fit_bins done")
+    if st in (None, "fit_api"):
+        results.append(stream_fit_api(run, run.n(5, 150), only))
+        run.log("fit_api done")
+    if st in (None, "occupancy_rule"):
+        results.append(stream_occupancy_rule(run, run.n(16, 600), only))
+        run.log("occupancy_rule done")
     if st in (None, "fit"):
         for k in range(1 if only or run.quick() else 10):
             results += stream_fit(run, (only or {}).get("seed", run.seed + k))
